@@ -67,6 +67,9 @@ func corpus() []ccase {
 		{"jsondecode", a(sv("{\"a\":1}}")), "value followed by a closing brace"},
 		{"jsonencode", a(sv("\n\u0327")), "json-representable"},
 		{"jsonencode", a(sv("\u001e\u0301")), "json-representable"},
+		{"jsonencode", a(sv(")-\n\u0f71\u0f72\u0323")), "json-representable"},
+		{"jsonencode", a(sv("\n\u0f71\u0307\u0327")), "json-representable"},
+		{"jsonencode", a(sv("\x1a\u0f71\u0301")), "json-representable"},
 		{"jsonencode", a(cty.ObjectVal(map[string]cty.Value{"\t\u0327": cty.TupleVal([]cty.Value{sv("a\r\u0301")})})), "json-representable"},
 		{"jsonencode", a(fl(1e300)), "json-representable"},
 		{"format", a(sv("%s|%q"), fl(math.Copysign(0, -1)), fl(math.Copysign(0, -1))), "text of negative zero: unpinned"},
